@@ -261,7 +261,8 @@ namespace OP2Utility::Archive
 			IndexEntry indexEntry;
 
 			uint64_t fileSize = volInfo.fileStreamReaders[i]->Length();
-			if (fileSize > UINT32_MAX) {
+			// Note: The size is stored in a signed 32 bit index field and a 31 bit section length field
+			if (fileSize > INT32_MAX) {
 				throw std::runtime_error("File " + volInfo.filesToPack[i] +
 					" is too large to fit inside a volume archive. Writing volume " + volumeFilename + " aborted.");
 			}
@@ -294,13 +295,17 @@ namespace OP2Utility::Archive
 			return;
 		}
 
-		volInfo.indexEntries[0].dataBlockOffset = volInfo.paddedStringTableLength + volInfo.paddedIndexTableLength + 32;
-
 		// Calculate offsets to the files
-		for (std::size_t i = 1; i < volInfo.fileCount(); ++i)
+		// Note: Offsets are accumulated in 64 bits, so a volume too large for the 32 bit offset field is detected rather than wrapped
+		uint64_t dataBlockOffset = static_cast<uint64_t>(volInfo.paddedStringTableLength) + volInfo.paddedIndexTableLength + 32;
+		for (std::size_t i = 0; i < volInfo.fileCount(); ++i)
 		{
-			const IndexEntry& previousIndex = volInfo.indexEntries[i - 1];
-			volInfo.indexEntries[i].dataBlockOffset = (previousIndex.dataBlockOffset + previousIndex.fileSize + 11) & ~3;
+			if (dataBlockOffset > UINT32_MAX) {
+				throw std::runtime_error("Files are too large to fit inside a volume archive. Writing volume " + volumeFilename + " aborted.");
+			}
+
+			volInfo.indexEntries[i].dataBlockOffset = static_cast<uint32_t>(dataBlockOffset);
+			dataBlockOffset = (dataBlockOffset + static_cast<uint64_t>(volInfo.indexEntries[i].fileSize) + 11) & ~static_cast<uint64_t>(3);
 		}
 	}
 
